@@ -456,6 +456,20 @@ class World:
                 if isinstance(v, np.ndarray) and v.size <= HEAP_MAX_ARRAY and \
                         not any(h.value is v for h in self.heap):
                     self.heap.append(H(v, 'arg'))
+        if how in ('mut', 'iop') and outcome == 'ok' and not rec.get('no_diff'):
+            # a documented mutation has just changed x: every remembered call that had x among
+            # its inputs is issued again on x as it is now and on a rebuilt object of equal public
+            # value -- results cached on x that the mutation failed to invalidate show up here
+            target = recv if how == 'mut' else (args[0] if args else None)
+            if target is not None and is_sm_object(target):
+                saved_op = self.cur_op
+                for ent in list(self.history)[-8:]:
+                    ins = [ent['inputs']['recv']] + list(ent['inputs']['args']) + \
+                          list(ent['inputs']['kwargs'].values())
+                    if any(v is target for v in ins):
+                        self.cur_op = 'rebuild:' + ent['rec']['key']
+                        self._differential(ent)
+                self.cur_op = saved_op
         if how not in ('mut', 'iop') and rec['name'] not in cat.RANDOM and tag != 'raise:CallTimeout':
             inputs = {'recv': recv, 'args': args, 'kwargs': kwargs}
             self.history.append({'rec': rec, 'inputs': inputs,
@@ -578,10 +592,88 @@ class World:
                 h.n = _length(h.value)
         return done
 
+    # -- equal public value, different object: the rebuild differential ------------------------
+    def _rebuild(self, v, memo):
+        """An object with the same class and the same public value as v, built without going
+        through v: fresh value list, fresh copies of the element arrays (arrays shared inside the
+        inputs stay shared), no private attributes.  Other kinds of value are passed through."""
+        if id(v) in memo:
+            return memo[id(v)]
+        out = v
+        if isinstance(v, np.ndarray):
+            out = np.array(v)
+        elif is_sm_object(v) and hasattr(v, 'data') and not _malformed(v) and hasattr(type(v), 'Empty'):
+            try:
+                out = type(v).Empty()
+                out.data = [self._rebuild(a, memo) for a in v.data]
+            except Exception:                                        # noqa: BLE001
+                out = v
+        elif isinstance(v, list):
+            out = [self._rebuild(x, memo) for x in v]
+        elif isinstance(v, tuple):
+            out = tuple(self._rebuild(x, memo) for x in v)
+        memo[id(v)] = out
+        return out
+
+    def _differential(self, ent):
+        """Issue the remembered call now on its (possibly since mutated) inputs and on rebuilt
+        inputs of equal public value; the two outcomes must agree."""
+        rec = ent['rec']
+        inp = ent['inputs']
+        if not any(is_sm_object(v) and hasattr(v, 'data')
+                   for v in [inp['recv']] + list(inp['args']) + list(inp['kwargs'].values())):
+            return 'skip'
+        memo = {}
+        twin = {'recv': self._rebuild(inp['recv'], memo),
+                'args': [self._rebuild(a, memo) for a in inp['args']],
+                'kwargs': {k: self._rebuild(v, memo) for k, v in inp['kwargs'].items()}}
+        if values.snapshot([twin['recv'], twin['args'], twin['kwargs']]) != \
+                values.snapshot([inp['recv'], inp['args'], inp['kwargs']]):
+            return 'skip'       # could not be rebuilt faithfully (exotic argument)
+        outs = []
+        for which in (inp, twin):
+            fn = self._callable(rec, which['recv'])
+            if fn is None:
+                return 'skip'
+            allin = [('receiver', which['recv'])] + \
+                    [('arg%d' % i, a) for i, a in enumerate(which['args'])] + \
+                    [('kw:' + k, v) for k, v in which['kwargs'].items()]
+            temps = [(r, v) for r, v in allin
+                     if v is not None and not any(h.value is v for h in self.heap)]
+            temp_snaps = [values.snapshot(v) for _, v in temps]
+            outcome, res = self._invoke(fn, which['args'], which['kwargs'])
+            tag = 'ok' if outcome == 'ok' else 'raise:' + type(res).__name__
+            self._frame_check(temps, temp_snaps, set(), rec['key'] + ' (differential)', allin, tag,
+                              (), rec.get('fault_unjudged'))
+            if tag == 'raise:CallTimeout':
+                return 'skip'
+            rs = values.snapshot(res) if outcome == 'ok' else None
+            if outcome == 'ok' and self._written.strip('\x00'):
+                rs = ('with_output', rs, ('lit', 'str', self._written))
+            outs.append((tag, rs))
+        (t1, r1), (t2, r2) = outs
+        if t1 != t2:
+            self.fail('rebuild', call=rec['key'], on_the_object=t1, on_a_rebuilt_equal_object=t2)
+        if r1 != r2 and not values.approx_equal(r1, r2):
+            self.fail('rebuild', call=rec['key'], where=values.diff_path(r1, r2),
+                      on_the_object=values.describe_snapshot(_first_diff(r1, r2, 0)),
+                      on_a_rebuilt_equal_object=values.describe_snapshot(_first_diff(r1, r2, 1)))
+        # the original inputs may have been legitimately mutated since the call was remembered:
+        # refresh the heap snapshots of nothing -- no call above is allowed to change anything
+        self.probe('f_rebuild_differential')
+        return 'same'
+
     def op_reorder(self, rec):
         """Re-issue every remembered call in reverse order; with poke, the caller first writes
-        into the value that call returned."""
+        into the value that call returned; with rebuild, each call is issued on its inputs as
+        they are now and on rebuilt inputs of equal public value."""
         n = 0
+        if rec.get('rebuild'):
+            for ent in reversed(list(self.history)):
+                self.cur_op = 'rebuild:' + ent['rec']['key']
+                if self._differential(ent) == 'same':
+                    n += 1
+            return {'r': 'ok', 'n': n}
         poke = bool(rec.get('poke'))
         for ent in reversed(list(self.history)):
             self.cur_op = 'reorder:' + ent['rec']['key']
@@ -727,8 +819,10 @@ def gen_config(rng):
         'heap_cap': rng.choice([6, 12, 24]),
         'redeliver_rate': rng.choice([0.0, 0.1, 0.25]),
         'final_passes': rng.choice([[], [{'op': 'reorder'}], [{'op': 'reorder', 'poke': True}],
+                                    [{'op': 'reorder', 'rebuild': True}],
                                     [{'op': 'reorder'}, {'op': 'reorder', 'poke': True}],
-                                    [{'op': 'reorder'}, {'op': 'reorder', 'poke': True}]]),
+                                    [{'op': 'reorder', 'rebuild': True}, {'op': 'reorder'},
+                                     {'op': 'reorder', 'poke': True}]]),
         'heap_ref_rate': rng.choice([0.2, 0.5, 0.8]),
         'plain_forms': rng.random() < 0.3,
         'multi_rate': rng.choice([0.1, 0.4]),
@@ -737,6 +831,7 @@ def gen_config(rng):
         'special_rate': rng.choice([0.0, 0.1, 0.1, 0.5]),
         'dup_rate': rng.choice([0.0, 0.1, 0.3]),
         'sym_rate': rng.choice([0.0, 0.0, 0.0, 0.2]),
+        'follow_mut_rate': rng.choice([0.0, 0.0, 0.15, 0.4]),
     }
 
 
@@ -1014,11 +1109,26 @@ def gen_step(world, cfg, rng):
                 'copy': rng.random() < 0.5,
                 'poke': rng.random() < cfg['poke_rate']}
     C = catalogue()
+    # "use it, then change it": right after a method call on a list-capable object, a documented
+    # list mutation of that same object (what the object cached about itself must not survive it)
+    last = getattr(world, 'last_meth', None)
+    world.last_meth = None
+    if last is not None and rng.random() < cfg.get('follow_mut_rate', 0.0) and last[0] < len(world.heap):
+        muts = [e for e in C['groups'].get(last[1], []) if e.how == 'mut']
+        h = world.heap[last[0]]
+        if muts and h.kind == 'obj:' + last[1]:
+            try:
+                return gen_call(rng.choice(muts), world, cfg, rng, recv_ref=last[0])
+            except NeedObject:
+                pass
     pending = getattr(world, 'pending_entry', None)
     world.pending_entry = None
     entry = C['by_key'][pending[0]] if pending else choose_entry(world, cfg, rng)
     try:
-        return gen_call(entry, world, cfg, rng)
+        rec = gen_call(entry, world, cfg, rng)
+        if rec.get('how') in ('meth', 'prop') and 'recv' in rec:
+            world.last_meth = (rec['recv'], entry.target)
+        return rec
     except NeedObject as e:
         tries = pending[1] if pending else 0
         if tries < 3:
@@ -1166,7 +1276,7 @@ ASSUMPTIONS = [
     'even on identical inputs, so bit identity of outputs cannot be demanded)',
     'sampling, not proof',
 ]
-MUST_FIRE = ['redeliver', 'reorder_calls', 'redeliver_after_caller_wrote_into_result',
+MUST_FIRE = ['redeliver', 'reorder_calls', 'rebuild_differential', 'redeliver_after_caller_wrote_into_result',
              'redelivered_on_copies', 'exception_path', 'alias_exemption_used',
              'multi_valued_receiver', 'operand_is_view', 'result_shares_memory']
 PROBES = ['result_is_operand', 'result_shares_memory', 'operand_was_earlier_result',
